@@ -334,6 +334,39 @@ func runC15(tw *TraceWriter, id int, c *Case) {
 	}
 }
 
+// runC08 renders the same File three times (NoFormat and formatted) and the same Statement three times with one File.
+func runC08(tw *TraceWriter, id int, c *Case) {
+	mk := func(noformat bool) (*jen.File, *jen.Statement) {
+		f := jen.NewFile("main")
+		f.NoFormat = noformat
+		s := NewBuilder().Stmt(c.Tree)
+		f.Add(s)
+		return f, s
+	}
+	fr, _ := mk(true)
+	ff, _ := mk(false)
+	rs := []Rec{}
+	for i := 0; i < 3; i++ {
+		rs = append(rs, resRec(renderFile(fr), renderFile(ff)))
+	}
+	_, st := mk(false)
+	fs := jen.NewFile("main")
+	ss := []string{}
+	for i := 0; i < 3; i++ {
+		r := safely(func() ([]byte, error) {
+			var buf bytes.Buffer
+			err := st.RenderWithFile(&buf, fs)
+			return buf.Bytes(), err
+		})
+		ss = append(ss, r.status+":"+string(r.out))
+	}
+	tw.Emit(Rec{"ev": "c08", "id": id, "tree": c.Tree, "r1": rs[0], "r2": rs[1], "r3": rs[2], "s1": ss[0], "s2": ss[1], "s3": ss[2]})
+	tw.Distinct("nontrivial_cases", fmt.Sprint(c.Kinds, rs[0]["raw"]))
+	if id <= 3 {
+		tw.Sample(Rec{"block_items": c.Kinds, "raw_first": rs[0]["raw"], "raw_second": rs[1]["raw"]})
+	}
+}
+
 func cmdCases(args []string) {
 	// usage: cases <out.ndjson> <stats.json> <cases.ndjson>... [--repeats n]
 	tw := NewTraceWriter(args[0])
@@ -362,6 +395,8 @@ func cmdCases(args []string) {
 				runC16(tw, id, &c, repeats)
 			case "c15":
 				runC15(tw, id, &c)
+			case "c08":
+				runC08(tw, id, &c)
 			default:
 				fatal("unknown case kind " + c.Kind)
 			}
